@@ -19,7 +19,9 @@ Image(r) == LET fs == After(Start, r.pos) IN
 
 Reason(r) ==
   LET expected == Image(r)["target"].kind IN
-  IF ~r.ok THEN "node-does-not-start"
+  \* the same save done again on what the crash left (the crashed save's temporary file included): it takes effect
+  IF r.again THEN (IF r.ok /\ r.content = "new" THEN "ok" ELSE "save-repeated-after-the-crash-does-not-take-effect")
+  ELSE IF ~r.ok THEN "node-does-not-start"
   ELSE IF r.content \notin {"old", "new"} THEN "content-lost"
   ELSE IF expected \in {"old", "new"} /\ expected # r.content THEN "MODEL:image-differs-from-FileSave"
   ELSE IF expected \notin {"old", "new"} THEN "MODEL:FileSave-predicts-" \o expected
